@@ -26,14 +26,15 @@ const (
 	// This is the maximum number of compression pointers that should occur in a
 	// semantically valid message. Each label in a domain name must be at least one
 	// octet and is separated by a period. The root label won't be represented by a
-	// compression pointer to a compression pointer, hence the -2 to exclude the
-	// smallest valid root label.
+	// compression pointer, hence the -1 to exclude the smallest valid root label:
+	// a name of 127 one-octet labels that the packer wrote as a bare pointer to
+	// a label followed by a pointer, and so on, needs one pointer per label.
 	//
 	// It is possible to construct a valid message that has more compression pointers
 	// than this, and still doesn't loop, by pointing to a previous pointer. This is
 	// not something a well written implementation should ever do, so we leave them
 	// to trip the maximum compression pointer check.
-	maxCompressionPointers = (maxDomainNameWireOctets+1)/2 - 2
+	maxCompressionPointers = (maxDomainNameWireOctets+1)/2 - 1
 
 	// This is the maximum length of a domain name in presentation format. The
 	// maximum wire length of a domain name is 255 octets (see above), with the
